@@ -33,6 +33,7 @@ for k in json.load(open(f"{V}/known_findings.json")):
     st = k["status"] + (" " + k.get("commit", "") if k["status"] == "fixed" else "")
     out.append(f"| {k['property']} | `{k['obligation']}` | {st} | {k['what_fails']} |\n")
 out.append("\nThe open finding (C06): `expr.compareNumbers` compares an integer with a float after rounding the integer to float64, so the order is not transitive near 2^53.  The exact-order postcondition at the int/float return sites is undischarged and listed in `known_findings.json`; the check prints `KNOWN-FINDING:` for it and exits 0.  It is not repaired because the repair changes query results for mixed int/float keys and is a design decision for the maintainers (an exact comparison is possible but slower).\n")
+out.append("\nThe open finding (C09): `count() by x` panics in the vector runtime when x is not a string column: the planner (`optimizer.IsCountByString`) routes every `count() by <top-level field>` to the string-only kernel, whose `update` ends in `panic(\"UNKNOWN %T\")`.  The panic site is an obligation of the contract of `CountByString.update`, listed in `known_findings.json`, replayed on the real code with an int64 column.  It is not repaired: the repair is either a type-aware planner decision or a general count-by kernel, neither of which is a minimal patch.\n\nOne more defect known from reading the code is not decided by any obligation and not repaired: the VNG builders and the vector-cache loader allocate `MemLength` bytes (and `Length` for the compressed buffer) exactly as the untrusted metadata section states, with no bound - a metadata section claiming a segment of 2^40 bytes makes the reader allocate that much (or panic in makeslice beyond the address space).  The verifier generates no resource-bound obligations (C11's \"no unbounded allocation\" is covered only where a configured limit exists, as for ZNG frames and the VNG header), and a repair needs a policy for the bound (segments are compressed, so the data-section size does not bound them) at five allocation sites.\n")
 out.append("\nTwo entries were not first seen by an obligation but by seed-writing agents exploring the unchanged tree: the C15 entry for `commits.Diff` (the agent for seed C15-7 dropped a racing-delete variant of its demonstration because it already failed without its patch; reproduced through the lake API: main loads {x:1}, child branches and loads {x:2}, main deletes {x:1}, merging child into main gave {x:1}{x:2}; stated as the contract that a merge patch adds only what the child added, which cannot be proved for the pinned loop over `child.SelectAll()` and is proved for the repaired loop over `child.diff.SelectAll()`), and the C02 entry for empty containers: the agent that wrote seed C02-6 noticed a value that did not round-trip on the unchanged tree; it was reproduced by hand (`[]([int64])` -> `[]` -> `[null]`, `[](bar=[int64])` -> `[](=bar)` -> `bar=[null]`), stated as contracts on `formatValueAndDecorate`/`formatValue` (the decorator after an empty container must be told to spell the type out; ghost ledger of decorate's arguments), shown to fail on the pinned formatter (self-test mutations `*_empty_container_flag_dropped`), and repaired by one `fix:` commit.\n\nA second defect reported by the same agent is reproduced but neither decided nor repaired: a container of a *named* type whose elements are union values not all of whose member types occur (`[1((int64,string))](=bar)`) is written with two decorators, `[1]([(int64,string)])(=bar)`, and the short-form definition after another decorator is not ZSON (the grammar in docs/formats/zson.md allows `(=name)` only directly after the value; the parser fails with an internal error).  No contract in reach states it - the text is assembled by two different calls of `decorate` whose relation is the recursion structure of `formatValue` - and the repair (the container's decorator has to be deferred to the enclosing named type) touches the signature of `formatValue` and its ten call sites, which is more than a minimal fix; it is listed here so that it is not mistaken for a property that holds.\n")
 out.append("\n## 7. Breaking changes written by independent agents, and which checks catch them\n\nEach change was produced by a fresh agent that saw only the property text and a scratch worktree; it compiles, passes the existing tests and comes with a demonstration test that fails with it and passes without it.  `tools/try_seed.sh` applies the patch to /repo, runs the property's quick check and reverses the patch.\n\n| seed | change | caught by | notes |\n|---|---|---|---|\n")
 for d in sorted(glob.glob(f"{V}/seeded/*")):
